@@ -184,11 +184,13 @@ pub fn vsort_by_time(v: &mut Vec<EventRecord>)
         time_sorted(rv(final(v)@)),
         is_stable_time_sort_of(rv(final(v)@), rv(old(v)@)),
 { unimplemented!() }
-/// R12: `$a.extend($b)` with `$b: Vec<EventRecord>` — `Vec::extend` appends the
-/// items of the iterator in order
+/// R12: `$a.extend($b.into_iter().filter(|r| !$set.contains(r.commit())))` with
+/// `$b: Vec<EventRecord>`, `$set: HashSet<CommitHash>` — `Iterator::filter` keeps the
+/// items on which the closure answers true, in order; `Vec::extend` appends them in
+/// order: `$a` gains the rows of `$b` whose commit is not in the set
 #[verifier::external_body]
-pub fn vextend(a: &mut Vec<EventRecord>, b: Vec<EventRecord>)
-    ensures final(a)@ == old(a)@ + b@,
+pub fn vextend_not_in(a: &mut Vec<EventRecord>, b: Vec<EventRecord>, set: &CommitSet)
+    ensures rv(final(a)@) == rv(old(a)@) + drop_commits(rv(b@), set.s@),
 { unimplemented!() }
 /// R12: `$v.clone()` on `Vec<EventRecord>` (`#[derive(Clone)] struct EventRecord`:
 /// field-wise): a vector of equal rows
@@ -196,8 +198,9 @@ pub fn vextend(a: &mut Vec<EventRecord>, b: Vec<EventRecord>)
 pub fn vclone_records(v: &Vec<EventRecord>) -> (r: Vec<EventRecord>)
     ensures rv(r@) == rv(v@), r@.len() == v@.len(),
 { unimplemented!() }
-/// R12: `$xs.iter().map(|r| r.commit()).collect::<HashSet<_>>()` — the set of commit
-/// hashes of the rows (`HashSet<&CommitHash>`, `Hash`/`Eq` derived on the 32 bytes)
+/// R12: `$xs.iter().map(|r| r.commit()).collect::<HashSet<_>>()` and the by-value
+/// spelling `.map(|r| *r.commit())` — the set of commit hashes of the rows
+/// (`HashSet<&CommitHash>` / `HashSet<CommitHash>`, `Hash`/`Eq` derived on the 32 bytes)
 pub struct CommitSet { pub s: Ghost<ISet<Seq<u8>>> }
 #[verifier::external_body]
 pub fn vcommit_set(xs: &Vec<EventRecord>) -> (r: CommitSet)
